@@ -54,6 +54,9 @@ struct CtlState {
     log_all_gates: bool,
     uid_salt: String,
     spin_ms: i64,
+    serialize_flushes: bool,
+    flush_token: Option<String>,                         // shard key prefix currently flushing
+    flush_waiters: Vec<(String, oneshot::Sender<()>)>,   // FIFO of flush tasks waiting for the token
 }
 
 struct Ctl {
@@ -78,6 +81,27 @@ impl Controller for CtlHandle {
     fn gate(&self, name: &'static str, key: &str) -> Option<GateFuture> {
         let mut st = self.0.st.lock().unwrap();
         *st.arrivals.entry(name.to_string()).or_insert(0) += 1;
+        // Flushes of different shards share the blocking pool; their relative progress would depend on
+        // real-time completion order. One flush at a time (arrival order) keeps every run a pure function
+        // of the plan. Hold rules still apply to the flush that owns the token.
+        if st.serialize_flushes && name == "flush.done" {
+            st.flush_token = None;
+            if !st.flush_waiters.is_empty() {
+                let (k, tx) = st.flush_waiters.remove(0);
+                st.flush_token = Some(k);
+                let _ = tx.send(());
+            }
+        }
+        let mut wait_token: Option<oneshot::Receiver<()>> = None;
+        if st.serialize_flushes && name == "flush.start" {
+            if st.flush_token.is_none() {
+                st.flush_token = Some(key.to_string());
+            } else {
+                let (tx, rx) = oneshot::channel();
+                st.flush_waiters.push((key.to_string(), tx));
+                wait_token = Some(rx);
+            }
+        }
         let mut hit: Option<(String, bool)> = None;
         for r in st.rules.iter_mut() {
             if r.armed && r.gate == name && key_matches(&r.key, key) {
@@ -87,6 +111,25 @@ impl Controller for CtlHandle {
                     break;
                 }
             }
+        }
+        if let Some(rx) = wait_token {
+            // wait for the flush token first; a hold rule on flush.start of this flush then applies on wake-up
+            let parked_rule = hit.clone();
+            log(json!({"t":"gate","seq":seq(),"name":name,"key":key,"token_wait":true,"rule":parked_rule.as_ref().map(|h| h.0.clone())}));
+            let hold_rx = match parked_rule {
+                Some((id, false)) => {
+                    let (tx, hrx) = oneshot::channel();
+                    st.parked.push((id, name.to_string(), key.to_string(), tx));
+                    Some(hrx)
+                }
+                _ => None,
+            };
+            return Some(Box::pin(async move {
+                let _ = rx.await;
+                if let Some(h) = hold_rx {
+                    let _ = h.await;
+                }
+            }));
         }
         match hit {
             None => {
@@ -349,6 +392,9 @@ fn main() {
     if life["log_reads"].as_bool().unwrap_or(false) {
         seams::LOG_READS.store(true, Ordering::SeqCst);
     }
+    if plan["log_tid"].as_bool().unwrap_or(false) {
+        seams::LOG_TID.store(true, Ordering::SeqCst);
+    }
     if let Some(b) = life["capture_data"].as_bool() {
         seams::CAPTURE_DATA.store(b, Ordering::SeqCst);
     }
@@ -376,6 +422,9 @@ fn main() {
             log_all_gates: life["log_gates"].as_bool().unwrap_or(true),
             uid_salt: plan["uid_salt"].as_str().unwrap_or("").to_string(),
             spin_ms: life["spin_ms"].as_i64().unwrap_or(1),
+            serialize_flushes: life["serialize_flushes"].as_bool().unwrap_or(true),
+            flush_token: None,
+            flush_waiters: Vec::new(),
         }),
     });
     let _ = CTL.set(Arc::clone(&ctl));
@@ -387,9 +436,21 @@ fn main() {
         .enable_all()
         .start_paused(true)
         .max_blocking_threads(1)
+        .on_thread_park(|| {
+            if seams::gettid() == seams::RT_TID.load(Ordering::Relaxed) {
+                seams::RT_PARKED.store(true, Ordering::SeqCst);
+            }
+        })
+        .on_thread_unpark(|| {
+            if seams::gettid() == seams::RT_TID.load(Ordering::Relaxed) {
+                seams::RT_PARKED.store(false, Ordering::SeqCst);
+                seams::CONFIRMED.store(false, Ordering::SeqCst);
+            }
+        })
         .build()
         .expect("runtime");
 
+    seams::RT_TID.store(seams::gettid(), Ordering::SeqCst);
     rt.block_on(async move {
         seams::ARMED.store(true, Ordering::SeqCst);
         let t0 = tokio::time::Instant::now();
@@ -572,7 +633,8 @@ fn main() {
                 log(json!({"t":"end","how":"shutdown","flush_errors":format!("{:?}",errs),"shutdown_errors":format!("{:?}",errs2),
                            "io":seams::IO_COUNT.load(Ordering::SeqCst),"sim_ms":t0.elapsed().as_millis() as u64,
                            "clock_reads":seams::CLOCK_READS.load(Ordering::Relaxed),
-                           "getrandom_calls":seams::GETRANDOM_CALLS.load(Ordering::Relaxed)}));
+                           "getrandom_calls":seams::GETRANDOM_CALLS.load(Ordering::Relaxed),
+                           "park_waits":seams::PARK_WAITS.load(Ordering::Relaxed),"park_timeouts":seams::PARK_TIMEOUTS.load(Ordering::Relaxed)}));
                 seams::die(0);
             }
             "stop" => {
